@@ -327,9 +327,9 @@ def main():
         shape_count[n] = len(shapes)
         # job budgets: the contract's own, else by family size - a family of many small shapes (one error pattern, one burst
         # position each) gets a short budget per shape, so that a change which makes every shape explode cannot take hours
-        many = len(shapes) >= 50
+        many = len(shapes) >= 200
         for s in shapes:
-            jobs.append((n, s, getattr(fn, "max_paths", 3000 if many else 20000), getattr(fn, "budget_s", 90 if many else 600)))
+            jobs.append((n, s, getattr(fn, "max_paths", 3000 if many else 20000), getattr(fn, "budget_s", 120 if many else 600)))
     if a.limit:
         jobs = jobs[: a.limit]
     # longest first would need a cost model; interleave contracts so that slow families spread over the pool
